@@ -207,6 +207,49 @@ def replay_known(make_world, make_run, shape, assignment, seed, timeout_ms):
     return bool(c2), c2, W2
 
 
+def replay_record(mod, rec, with_known=True, verbose=True):
+    """native replay (real classes, real ints, no stubs) of a stored record {shape, assignment}.
+    Returns True iff the property is violated on it (known-finding exclusions applied iff with_known)."""
+    import z3
+
+    from symx.engine import Explorer
+
+    shape, assignment = rec["shape"], rec["assignment"]
+    ex = Explorer(forced=assignment)
+    for name, v in assignment.items():
+        ex.declare(z3.Bool(name) if isinstance(v, bool) else z3.Int(name))
+    W = mod.make_world(ex, shape, True)
+    run = mod.make_run(W, shape) if with_known else mod.make_run(W, shape, known_active={})
+    st, c = ex.explore(run, max_paths=1)
+    if verbose:
+        if hasattr(W, "describe"):
+            print("world:", W.describe(assignment))
+        print("shape:", json.dumps(shape, default=str))
+        print("native run:", json.dumps(st["samples"], default=str))
+    return bool(c)
+
+
+def known_witness_lines(mod, pid):
+    """replay every listed known finding's stored witness natively; print KNOWN-FINDING iff it still fails"""
+    seen = set()
+    for e in load_known(pid):
+        if e.get("status") != "known":
+            continue
+        w = e.get("witness")
+        still = False
+        if w and "shape" in w:
+            try:
+                still = replay_record(mod, w, with_known=False, verbose=False)
+            except Exception:  # noqa: BLE001
+                print("HARNESS-ERROR: known-finding witness replay crashed:", traceback.format_exc()[-400:])
+        elif w and w.get("kind") == "native":
+            still = bool(getattr(mod, "NATIVE_WITNESSES")[w["program"]]())
+        if still:
+            print(f"KNOWN-FINDING: property={pid} {e['what']}")
+            seen.add(e["id"])
+    return seen
+
+
 # ---------------------------------------------------------------------------
 # pool
 
@@ -236,7 +279,7 @@ def pmap(modname, fname, shapes, kw, procs=None, chunksize=1):
 
 def finish(pid, tier, seed, t0, results, *, level="model_checking", bounds=None, rule="", stubs=(),
            dont_care=(), assumptions=(), shapes_total=None, shapes_sampled=False, engine="symx(z3)",
-           extra=None, replay_hint=None, native_known=None):
+           extra=None, mod=None):
     """results: list of shape result dicts (explore_symbolic format).  Writes evidence, prints
     VIOLATION / KNOWN-FINDING / INCONCLUSIVE lines, returns exit code."""
     os.makedirs(EVID, exist_ok=True)
@@ -280,14 +323,7 @@ def finish(pid, tier, seed, t0, results, *, level="model_checking", bounds=None,
                     agg["example"] = dict(shape=r["shape"], world=ks.get("world"), run=(ks.get("witness") or {}).get("info"))
     code = EXIT_OK
     # known findings listed in the committed file
-    listed = load_known(pid)
-    for e in listed:
-        if e.get("status") != "known":
-            continue
-        seen = known_seen.get(e["id"])
-        nat = (native_known or {}).get(e["id"])
-        if (seen and seen["reproduced_natively"]) or nat:
-            print(f"KNOWN-FINDING: property={pid} {e['what']}")
+    still_failing = known_witness_lines(mod, pid) if mod is not None else set()
     for i, v in enumerate(violations):
         h = hashlib.sha1(json.dumps(v, sort_keys=True, default=str).encode()).hexdigest()[:10]
         path = os.path.join(REPLAYS, f"{pid}-{h}.json")
@@ -328,6 +364,7 @@ def finish(pid, tier, seed, t0, results, *, level="model_checking", bounds=None,
         stubs=list(stubs),
         dont_care=list(dont_care),
         known_findings_seen=known_seen,
+        known_findings_witness_still_fails=sorted(still_failing),
         harness_errors=len(herrors) + len(crashed),
         engine=engine,
     )
